@@ -31,7 +31,10 @@ EXPLANATION = (
     "the enclosing function and used outside that loop. R3: hash-order taint from set iteration to counters paired "
     "with elements in arithmetic and to lists stored in solution objects. R4: every occurrence of the debug store "
     "`common.json` (and aliases) is a store target, a mutator receiver, its own index, or the archive writer. "
-    "R5: recursion per gene inside try/except AldyException without re-raise, parameters forwarded by **, own Gene."
+    "Module-level and class-level mutable state (caches, memo tables, upper-case globals) written by a function is an obligation of its own. "
+    "R5: genotype() folded whole (recording stubs, caches modelled as state of the run): a multi-gene run gives every gene the result, the arguments "
+    "(solver, reference, debug prefix, the user's neutral region, parameters), the profile load and the gene object of its single-gene run, a failing gene "
+    "leaves one closed line; what an earlier call did (exome alias) does not reach a later call."
 )
 ASSUMPTIONS = [
     "owners: Gene.__init__/_init_basic/_init_regions/_init_alleles/_init_partials (catalogue); all Sample methods, "
